@@ -29,7 +29,8 @@ ASSUMPTIONS = [
 ]
 
 ZOO_VALUES = [5, 0, -3, 2.5, True, None, "abc", "", "12", "100%", [], [1, 2], {}, {"a": 1, "b": 2},
-              6, 12, "a", {"a": 1}, [0], 1.0, False, "%d", 2**53, "A", "%c", 2**53 + 1, 2**63 - 1]
+              6, 12, "a", {"a": 1}, [0], 1.0, False, "%d", 2**53, "A", "%c", 2**53 + 1, 2**63 - 1,
+              "%99999999999d", "%.99999999999f"]
 ZOO_LIST = ZOO_VALUES
 ZOO_MAP = {"a": 5, "": 0, 0: "abc", 2.5: None, None: [1, 2], True: {"a": 1, "b": 2}, "abc": "",
            "b": 2.5, 7: [], "12": {}, -3: "100%", "100%": 12, "A": True}
